@@ -269,7 +269,7 @@ def model_runs(ctx):
             c = dict(one)
             c.update(consts)
             cfg = tl.mc_cfg(ctx, name, c, inv, symmetry=sym, witness=workers == 1)
-            res = tlc.run("Tasks", cfg, ctx.scratch, workers=workers, timeout=3000)
+            res = tlc.run("Tasks", cfg, ctx.scratch, workers=tl.tlc_workers(workers), timeout=3000)
             return ("stmt" if workers == 1 else "big", name, res, expect_unseen)
         return go
     # exit protocol of one task: two callback functions, re-registration, removal, env cancellation at every park
@@ -295,7 +295,7 @@ def model_runs(ctx):
                       "Kinds": '{"trig", "svc"}',
                       "Ops": '{"unique", "sleep", "raise", "create", "cancel", "addcb", "rmcb", "wait", "exec"}'})
             cfg = tl.mc_cfg(ctx, "c14_sim", c, inv, symmetry=False)
-            res = tlc.run("Tasks", cfg, ctx.scratch, workers=4, timeout=3000,
+            res = tlc.run("Tasks", cfg, ctx.scratch, workers=tl.tlc_workers(4), timeout=3000,
                           extra=["-simulate", "num=3000", "-depth", "70", "-seed", str(ctx.seed + 1)])
             return ("sim", "c14_sim_4tasks", res, None)
         runs.append(sim)
@@ -313,7 +313,7 @@ def main(ctx):
         tl.validate(ctx, "C14", [c for r in cases for c in r], "replay")
         return
     r = random.Random(ctx.seed)
-    per = ctx.pick(5, 60)
+    per = ctx.pick(5, 100)
     cap = ctx.pick(4, 40)
     njobs = 12
     scns = []
